@@ -146,6 +146,7 @@ func runCompJob(job *Job, res *Result) {
 			os.MkdirAll(job.ReplayDir, 0777)
 			j := *job
 			j.Mode = "replay"
+			j.PureBuf = vs.PureBuf
 			j.Replay = s.ReplayChoices()
 			j.Base = ""
 			fn := filepath.Join(job.ReplayDir, fmt.Sprintf("%s-%x.json", sanitize(job.ID), hash32(v.Signature)))
